@@ -427,3 +427,123 @@ def _o():
 def _o():
     S = I("py_ecc.secp256k1")
     return (S.ecdsa_raw_recover, [b"\x35" * 32, (29, 5, 7)], {})
+
+
+# ------------------------------------------------------------------ collisions: equal inputs, one parameter differs
+@op("hash_to_G2:sha512-same-msg-and-dst", 2)
+def _o():
+    H = I("py_ecc.bls.hash_to_curve")
+    return (H.hash_to_G2, [b"abc", b"QUUX-V01-CS02-with-BLS12381G2_XMD:SHA-256_SSWU_RO_", hashlib.sha512], {})
+
+
+@op("hash_to_G1:other-dst", 1)
+def _o():
+    H = I("py_ecc.bls.hash_to_curve")
+    return (H.hash_to_G1, [b"abc", b"another tag", hashlib.sha256], {})
+
+
+@op("expand_message_xmd:sha512-same-inputs", 0)
+def _o():
+    H = I("py_ecc.bls.hash")
+    return (H.expand_message_xmd, [b"abc", b"QUUX-V01-CS02", 100, hashlib.sha512], {})
+
+
+@op("hash_to_field_FQ2:count3-same-inputs", 0)
+def _o():
+    H = I("py_ecc.bls.hash_to_curve")
+    return (H.hash_to_field_FQ2, [b"abc", 3, b"QUUX-V01-CS02", hashlib.sha256], {})
+
+
+@op("signature_to_G2:S", 1)
+def _o():
+    G = I("py_ecc.bls.g2_primitives")
+    return (G.signature_to_G2, [LIT["sig1:basic"]], {})
+
+
+@op("signature_to_G2:-S(sign-flag-flipped)", 1)
+def _o():
+    G = I("py_ecc.bls.g2_primitives")
+    s = LIT["sig1:basic"]
+    return (G.signature_to_G2, [bytes([s[0] ^ 0x20]) + s[1:]], {})
+
+
+@op("pubkey_to_G1:P", 1)
+def _o():
+    G = I("py_ecc.bls.g2_primitives")
+    return (G.pubkey_to_G1, [LIT["pk1"]], {})
+
+
+@op("pubkey_to_G1:-P(sign-flag-flipped)", 1)
+def _o():
+    G = I("py_ecc.bls.g2_primitives")
+    s = LIT["pk1"]
+    return (G.pubkey_to_G1, [bytes([s[0] ^ 0x20]) + s[1:]], {})
+
+
+@op("pairing:fe=False-same-points:optimized_bls12_381", 2)
+def _o():
+    M = I("py_ecc.optimized_bls12_381")
+    return (lambda Q, P: M.pairing(Q, P, final_exponentiate=False), [M.G2, M.G1], {})
+
+
+@op("pairing:fe=False-same-points:optimized_bn128", 2)
+def _o():
+    M = I("py_ecc.optimized_bn128")
+    return (lambda Q, P: M.pairing(Q, P, final_exponentiate=False), [M.G2, M.G1], {})
+
+
+@op("pairing:scaled-representatives:optimized_bls12_381", 3)
+def _o():
+    M = I("py_ecc.optimized_bls12_381")
+    Q = tuple(c * 3 for c in M.G2)
+    P = tuple(c * 5 for c in M.G1)
+    return (M.pairing, [Q, P], {})
+
+
+for _s in SUITES:
+    def _mk2(s):
+        @op("Verify:negated-signature:%s" % s, 3)
+        def _a():
+            C = getattr(I("py_ecc.bls"), SUITES[s])
+            sg = LIT["sig1:" + s]
+            return (C.Verify, [LIT["pk1"], b"msg one", bytes([sg[0] ^ 0x20]) + sg[1:]], {})
+
+        @op("Verify:other-suite-signature:%s" % s, 3)
+        def _b():
+            C = getattr(I("py_ecc.bls"), SUITES[s])
+            other = {"basic": "aug", "aug": "pop", "pop": "basic"}[s]
+            return (C.Verify, [LIT["pk1"], b"msg one", LIT["sig1:" + other]], {})
+
+        @op("Sign:other-key-same-message:%s" % s, 2)
+        def _c():
+            C = getattr(I("py_ecc.bls"), SUITES[s])
+            return (C.Sign, [LIT["sk2"], b"msg one"], {})
+    _mk2(_s)
+
+
+@op("KeyGen:bytearray-key_info", 0)
+def _o():
+    B = I("py_ecc.bls")
+    return (B.G2Basic.KeyGen, [bytearray(b"\x01" * 32), bytearray(b"info")], {})
+
+
+@op("hkdf_expand:bytearray-twice", 0)
+def _o():
+    H = I("py_ecc.bls.hash")
+    def f(prk, info):
+        a = bytes(H.hkdf_expand(prk, info, 64))
+        b = bytes(H.hkdf_expand(prk, info, 64))
+        return (a, b, a == b)
+    return (f, [bytearray(b"k" * 32), bytearray(b"info")], {})
+
+
+@op("multiply:same-point-other-scalar:optimized_bls12_381", 1)
+def _o():
+    M = I("py_ecc.optimized_bls12_381")
+    return (lambda G1, G2: (M.multiply(G1, 78), M.multiply(G2, 10)), [M.G1, M.G2], {})
+
+
+@op("FQ12.pow:same-base-other-exponent:bls_opt", 1)
+def _o():
+    FQ12 = _F("bls_opt", "FQ12")
+    return (lambda a: (a ** 8, a ** FQ12.field_modulus), [FQ12([5, 0, 0, 7] + [0] * 8)], {})
